@@ -37,6 +37,9 @@ pub struct NetConfig {
     pub eintr_permille: u32,
     /// connecting to 0.0.0.0 / [::] fails (Windows-like) instead of reaching loopback
     pub strict_unspecified: bool,
+    /// a listener on [::] also accepts IPv4 connections, which it sees as coming from the
+    /// IPv4-mapped address ::ffff:a.b.c.d (Linux default, net.ipv6.bindv6only = 0)
+    pub dual_stack: bool,
     /// segmentation of writes on endpoints without an explicit policy
     pub default_seg: Seg,
 }
@@ -51,6 +54,7 @@ impl Default for NetConfig {
             short_write_permille: 0,
             eintr_permille: 0,
             strict_unspecified: false,
+            dual_stack: true,
             default_seg: Seg::Whole,
         }
     }
@@ -256,11 +260,20 @@ impl State {
             self.count("net.connect_blackholed", 1);
             return Err(None);
         }
+        let mut mapped = false;
         let key = match self.net.find_listener(target) {
             Some(k) => k,
             None => {
-                self.count("net.connect_refused", 1);
-                return Err(Some(err(ErrorKind::ConnectionRefused, "connection refused (simulated)")));
+                // dual stack: an IPv4 destination with no IPv4 listener reaches a listener on [::]
+                let v6any = SocketAddr::new(IpAddr::V6(Ipv6Addr::UNSPECIFIED), target.port());
+                if self.net.cfg.dual_stack && target.is_ipv4() && self.net.listeners.contains_key(&v6any) {
+                    mapped = true;
+                    self.count("net.connect_v4_to_dual_stack_listener", 1);
+                    v6any
+                } else {
+                    self.count("net.connect_refused", 1);
+                    return Err(Some(err(ErrorKind::ConnectionRefused, "connection refused (simulated)")));
+                }
             }
         };
         let local = match src {
@@ -308,7 +321,12 @@ impl State {
         };
         // endpoints are allocated in pairs: client = 2k, server = 2k+1
         let c = mk(self, local, target);
-        let s = mk(self, target, local);
+        // (on a dual-stack listener the server side sees both addresses in their IPv4-mapped form)
+        let map = |a: SocketAddr| match a.ip() {
+            IpAddr::V4(v4) if mapped => SocketAddr::new(IpAddr::V6(v4.to_ipv6_mapped()), a.port()),
+            _ => a,
+        };
+        let s = mk(self, map(target), map(local));
         let ci = self.net.eps.len();
         self.net.eps.push(c);
         self.net.eps.push(s);
